@@ -6,6 +6,12 @@ import sys
 import traceback
 
 
+def _cleanup(box):
+    import shutil
+    os.chdir('/')
+    shutil.rmtree(box, ignore_errors=True)
+
+
 def main():
     ap = argparse.ArgumentParser()
     ap.add_argument('pid')
@@ -16,7 +22,7 @@ def main():
     if args.replay:
         args.replay = os.path.abspath(args.replay)
     from harness import common, tlc
-    common.sandbox()
+    box = common.sandbox()
     sys.path.insert(0, common.REPO)
     chk = common.Check(args.pid, args.tier, seed)
     try:
@@ -28,14 +34,20 @@ def main():
             rc = chk.finish()
     except tlc.MachineryError as exc:
         print(f'MACHINERY-ERROR property={args.pid}: {exc}', file=sys.stderr)
+        _cleanup(box)
         sys.exit(2)
     except SystemExit:
         raise
     except BaseException:  # pylint: disable=broad-except
         traceback.print_exc()
         print(f'MACHINERY-ERROR property={args.pid}: driver crashed', file=sys.stderr)
+        _cleanup(box)
         sys.exit(2)
     sys.stdout.flush()
+    sys.stderr.flush()
+    os.chdir('/')
+    import shutil
+    shutil.rmtree(box, ignore_errors=True)
     os._exit(rc)  # skip lingering threads (dask / serving)
 
 
